@@ -47,7 +47,7 @@ func H_C03_addressing() {
 			c.MatchSnapshot(ts[w], "v")
 			ord[w]++
 			if len(ts[w].errors) == 0 {
-				_, _, err := getPrevSnapshot("["+names[w]+" - "+strconv.Itoa(ord[w])+"]", path)
+				_, _, err := refPrev("["+names[w]+" - "+strconv.Itoa(ord[w])+"]", path)
 				vxrt.Assert(err == nil, "C03:kth-call-addresses-slot-k")
 			}
 		case 1: // a mismatching call (fails unless the slot is new)
@@ -80,6 +80,7 @@ func H_C03_addressing() {
 // other slot replays as, nor reorders or drops pre-existing entries.
 func H_C03_isolation() {
 	vxrt.CI(false)
+	calibrateStorage()
 	dir := vxrt.Dir()
 	path := dir + "/f.snap"
 	os_MkdirAll(dir)
@@ -114,15 +115,15 @@ func H_C03_isolation() {
 		if i == target {
 			continue
 		}
-		got, _, err := getPrevSnapshot("["+ids[i]+"]", path)
+		got, _, err := refPrev("["+ids[i]+"]", path)
 		vxrt.Assert(err == nil, "C03:other-entry-still-found")
 		vxrt.Assert(vxrt.Eq(got, bodies[i]), "C03:other-entry-value-unchanged")
 	}
 	if target == k {
-		got, _, err := getPrevSnapshot("[TestC - 1]", path)
+		got, _, err := refPrev("[TestC - 1]", path)
 		vxrt.Assert(err == nil && vxrt.Eq(got, newBody), "C03:new-entry-replays")
 	} else {
-		got, _, err := getPrevSnapshot("["+ids[target]+"]", path)
+		got, _, err := refPrev("["+ids[target]+"]", path)
 		vxrt.Assert(err == nil && vxrt.Eq(got, newBody), "C03:updated-entry-replays")
 	}
 	// the file is exactly the frames in their original order (target replaced / new appended)
